@@ -96,6 +96,53 @@ def run(ctx, F, cg):
             else:
                 ctx.ok("R19d", inst, "the failing side never reaches the success reply")
     ctx.floor("R19d", "persistence calls made by front ends", n_p, 2)
+    # ---- R19e: every created / changed entity of the result is handed to persistence ---------------------
+    ctx.rule("R19e", "in a front end that persists from result rows, every row value of an entity kind (Value::Node, Value::Edge) reaches its persist_* call: from the Node / Edge side of the switch on the value's kind, every path to the next row value passes the call (or an error return) — a filter in between (de-duplication keeping the first image, a 'changed?' test) lets an acknowledged change go unpersisted")
+    vadt = F.adt("executor::record::Value")
+    vnames = [v["name"] for v in vadt["variants"]]
+    n_e = 0
+    for name, prefix in FRONT_ENDS:
+        cs = [r for p, r in F.fns.items() if p.startswith(prefix) and r["coroutine"]]
+        if len(cs) != 1:
+            continue
+        r = cs[0]
+        b = Body(F.mir(r["path"]), r)
+        pcs = [c for c in b.calls() if c.path.startswith(PM + "persist_")]
+        if not pcs:
+            continue
+        loops = {c.bb for c in b.calls() if c.path.rsplit("::", 1)[-1] == "next" and c.expname == "ForLoop"}
+        errs = {cc.bb for cc in b.calls() if cc.path.endswith("from_residual")} | {i for i, j, pl, rv, line, exp in b.stmts() if rv[0] == "agg" and rv[1].endswith("RespValue::Error")}
+        found = False
+        for i in sorted(b.live_blocks()):
+            t = b.blocks[i]["t"]
+            if t[0] != "switch" or t[1][0] == "k":
+                continue
+            ds = b.defs().get(t[1][1][0], [])
+            if not (len(ds) == 1 and ds[0][0] == "stmt" and ds[0][4][0] == "discr"):
+                continue
+            src = ds[0][4][1]
+            if "record::Value" not in b.local_ty(src[0]) or b.local_ty(src[0]).startswith("std::option::Option"):
+                continue
+            if not any(pc.bb in b.reachable(i) for pc in pcs):
+                continue
+            found = True
+            for kind, fnpat in (("Node", "persist_create_node"), ("Edge", "persist_create_edge")):
+                idx = str(vnames.index(kind))
+                tg = [tgt for v, tgt in t[2] if v == idx]
+                side = tg[0] if tg else t[3]
+                n_e += 1
+                through = {pc.bb for pc in pcs if pc.path.endswith(fnpat)} | errs
+                targets = loops | set(b.ret_blocks())
+                skip = [x for x in targets if x in b.reachable(side, avoid=through | {i})]
+                inst = "%s|%s" % (name, kind)
+                if skip:
+                    ctx.violation("R19e", inst + "|entity-skipped", where(r, b.blocks[i]["l"]),
+                                  "%s: a Value::%s of the result can go on to the next value without passing %s: some acknowledged images of an entity are not persisted (with SET running row by row, later rows carry the newer image)" % (name, kind, fnpat))
+                else:
+                    ctx.ok("R19e", inst, "every Value::%s reaches %s before the next value" % (kind, fnpat))
+        if not found:
+            ctx.anchor_failure("R19e", "%s: switch on the kind of a result value before the persist calls" % name)
+    ctx.floor("R19e", "entity kinds persisted from result rows", n_e, 2)
     # ---- R19c ------------------------------------------------------------------------------------------
     ss = [r for p, r in F.fns.items() if r["unit"] == "samyama.bin" and any(c == PM + "recover" for c in r["calls"])]
     if not ss:
